@@ -6,6 +6,7 @@ import (
 	"go/constant"
 	"go/token"
 	"go/types"
+	"sort"
 	"strings"
 
 	"golang.org/x/tools/go/ssa"
@@ -129,43 +130,49 @@ func c13(c *an.Ctx) {
 				o.Fail(p.Pos(vd.Pos()), "columns tagged %q are decoded by Scanner.Scan but Valuer.Value has no encoder for that tag", t)
 			}
 		}
-		// buildDescriptor's accepted tags = primary + the codec's tags
-		bd, bpp := p.FuncDecl(sg, "Schema.buildDescriptor")
-		an.Need(bd != nil, "Schema.buildDescriptor")
+		// buildDescriptor's accepted tags = primary + the codec's tags: the words an option (an element
+		// of the tag's parts after the name) is compared with, read off the SSA form so that the
+		// option handling may live in a helper or be written as if-chains (that unknown options and
+		// implicitnull on pointers are rejected is evaluated by the decision table below)
+		fn := c.NeedFunc(sg, "(*Schema).buildDescriptor")
 		var accepted []string
-		for _, sw := range an.Switches(bd, bpp) {
-			if sw.Tag == "tag" {
-				o.SitePos(p.Pos(sw.Node.Pos()))
-				for _, t := range sw.AllCaseTypes() {
-					accepted = append(accepted, strings.Trim(t, `"`))
+		seenTag := map[string]bool{}
+		an.Instrs(fn, func(i ssa.Instruction) {
+			bo, ok := i.(*ssa.BinOp)
+			if !ok || (bo.Op != token.EQL && bo.Op != token.NEQ) {
+				return
+			}
+			for _, pr := range [][2]ssa.Value{{bo.X, bo.Y}, {bo.Y, bo.X}} {
+				cs, isStr := an.ConstString(pr[1])
+				ld, isLoad := pr[0].(*ssa.UnOp)
+				if !isStr || !isLoad || ld.Op != token.MUL {
+					continue
 				}
-				if d := sw.HasDefault(); d == nil || !an.EndsInPanicOrError(d.Body) {
-					o.Fail(p.Pos(sw.Node.Pos()), "buildDescriptor accepts unknown column tags silently (a misspelt tag would store the raw Go value)")
+				ia, ok := ld.X.(*ssa.IndexAddr)
+				if !ok {
+					continue
+				}
+				sl, ok := ia.X.(*ssa.Slice)
+				if !ok {
+					continue
+				}
+				if call, ok := sl.X.(*ssa.Call); ok {
+					if f := an.CalleeFunc(&call.Call); f != nil && f.Name() == "Split" && !seenTag[cs] {
+						seenTag[cs] = true
+						accepted = append(accepted, cs)
+						o.Site(i)
+					}
 				}
 			}
-		}
+		})
+		sort.Strings(accepted)
 		want := append([]string{"primary"}, vt...)
 		onlyA, onlyW := an.SetDiff(accepted, want)
 		if len(onlyA) > 0 {
-			o.Fail(p.Pos(bd.Pos()), "buildDescriptor accepts tags %v that the codec does not implement", onlyA)
+			o.Fail(p.Pos(fn.Pos()), "buildDescriptor accepts tags %v that the codec does not implement", onlyA)
 		}
 		if len(onlyW) > 0 {
-			o.Fail(p.Pos(bd.Pos()), "the codec implements tags %v that buildDescriptor rejects", onlyW)
-		}
-		// implicitnull rejected for pointer fields
-		fn := c.NeedFunc(sg, "(*Schema).buildDescriptor")
-		okImp := false
-		for _, e := range an.Exits(fn, false) {
-			if isConstNil(an.ResultAt(e.(*ssa.Return), 1)) {
-				continue
-			}
-			gs := strings.Join(an.GuardStrings(e.Block()), " ; ")
-			if strings.Contains(gs, "\"implicitnull\"") && strings.Contains(gs, ".Kind() == 22)") {
-				okImp = true
-			}
-		}
-		if !okImp {
-			o.Fail(p.Pos(fn.Pos()), "implicitnull on a pointer column is no longer rejected (nil and zero would both map to NULL and come back as nil)")
+			o.Fail(p.Pos(fn.Pos()), "the codec implements tags %v that buildDescriptor rejects", onlyW)
 		}
 	})
 
